@@ -197,14 +197,38 @@ class ChoicesValidateMulti(_Geno):
     return z3.Not(valid)
 
   def replay(self, obligation, m):
-    spec_ = pg.dna_spec(pg.manyof(2, ['a', 'b', 'c'], distinct=False, sorted=False))
+    """Concrete instance: candidates are constants 0..n-1; the model keys k, n,
+    distinct, sorted, vals (child values) come from small_models()."""
+    n, k = m.get('n') or 3, m.get('k') or 2
+    distinct, sorted_ = bool(m.get('distinct')), bool(m.get('sorted'))
+    vals = m.get('vals')
+    if vals is None:
+      vals = [0, -1]
     try:
-      spec_.validate(pg.DNA([0, -1]))
+      spec_ = pg.dna_spec(pg.manyof(k, list(range(n)), distinct=distinct, sorted=sorted_))
+    except Exception as e:  # pylint: disable=broad-except
+      return dict(outcome='not-concretizable', detail=repr(e))
+    valid = (len(vals) == k and all(0 <= v < n for v in vals)
+             and (not distinct or len(set(vals)) == len(vals))
+             and (not sorted_ or all(a <= b for a, b in zip(vals, vals[1:]))))
+    try:
+      spec_.validate(pg.DNA(None, [pg.DNA(v) for v in vals]) if len(vals) != 1 else pg.DNA(vals[0]))
       accepted = True
     except ValueError:
       accepted = False
-    return dict(outcome='reproduced' if accepted else 'not-reproduced',
-                detail=f'manyof(2, [a,b,c]).validate(DNA([0, -1])) {"accepted" if accepted else "rejected"}')
+    return dict(outcome='reproduced' if accepted != valid else 'not-reproduced',
+                detail=f'manyof({k}, range({n}), distinct={distinct}, sorted={sorted_}).validate(DNA({vals})) '
+                       f'{"accepted" if accepted else "rejected"}; by the statement it is {"a member" if valid else "not a member"}')
+
+  def small_models(self):
+    import itertools
+    from pyvc.contracts import Model
+    for k, n in ((2, 2), (2, 3), (3, 3)):
+      for distinct in (False, True):
+        for sorted_ in (False, True):
+          for ln in (k, k - 1, k + 1):
+            for vals in itertools.product(range(-1, n + 1), repeat=ln):
+              yield Model(dict(k=k, n=n, distinct=distinct, sorted=sorted_, vals=list(vals)), {})
 
 
 @register
@@ -263,3 +287,30 @@ class SpaceValidate(_Geno):
                   z3.If(elems.len == 1, VALID_ELEM(z3.Select(elems.arr, 0), d.ghost['id']),
                         z3.And(ch.len == elems.len, each)))
     return z3.Not(valid)
+
+  def replay(self, obligation, m):
+    """Concrete instance: e elements, each oneof([0, 1]); children values from
+    the model key vals (small_models())."""
+    e = m.get('e')
+    vals = m.get('vals')
+    if e is None or vals is None:
+      return dict(outcome='not-concretizable', detail='abstract model (elements are induction hypotheses)')
+    spec_ = pg.dna_spec(pg.Dict({f'x{i}': pg.oneof([0, 1]) for i in range(e)}))
+    valid = len(vals) == e and all(0 <= v < 2 for v in vals)
+    dna = pg.DNA(vals[0]) if len(vals) == 1 else pg.DNA(None, [pg.DNA(v) for v in vals])
+    try:
+      spec_.validate(dna)
+      accepted = True
+    except ValueError:
+      accepted = False
+    return dict(outcome='reproduced' if accepted != valid else 'not-reproduced',
+                detail=f'space of {e} binary choices: validate(DNA({vals})) {"accepted" if accepted else "rejected"}; '
+                       f'by the statement it is {"a member" if valid else "not a member"}')
+
+  def small_models(self):
+    import itertools
+    from pyvc.contracts import Model
+    for e in (1, 2, 3):
+      for ln in range(1, 5):
+        for vals in itertools.product(range(-1, 3), repeat=ln):
+          yield Model(dict(e=e, vals=list(vals)), {})
